@@ -344,9 +344,9 @@ func (k *Walker) resetWithReflog(hostilePct int) {
 	} else if n > 0 {
 		// prefer deep positions sometimes so that two-digit positions are reached
 		if n > 10 && k.chance(40) {
-			arg = fmt.Sprintf("HEAD@{%d}", 10+k.R.IntN(n-10))
+			arg = k.posArg(10 + k.R.IntN(n-10))
 		} else {
-			arg = fmt.Sprintf("HEAD@{%d}", k.R.IntN(n))
+			arg = k.posArg(k.R.IntN(n))
 		}
 	} else {
 		k.invalid = "no-reflog"
@@ -621,9 +621,10 @@ func (C11Mon) After(w *core.World, st *core.Step) {
 	s.adds, s.renames, s.lastKind, s.msgClass, s.lastMsg = 0, 0, "", "", ""
 }
 
-// plainJournalMessage: one line of printable ASCII without the separators the journal line itself uses (": ", tab)
+// plainJournalMessage: one line of printable ASCII (a carriage return may end it) without the separators the journal line itself uses (": ", tab)
 // and without blanks at the ends -- the class for which what the journal shows is not open to interpretation.
 func plainJournalMessage(m string) bool {
+	m = strings.TrimSuffix(m, "\r") // a carriage return at the end is part of what was given, and of what reads back
 	if m == "" || strings.Contains(m, ": ") || strings.TrimSpace(m) != m || strings.Contains(m, "  ") {
 		return false
 	}
@@ -747,4 +748,14 @@ func init() {
 		Run:    runC11,
 		Floors: []core.Floor{{Key: "C11.suffix", Min: 800}, {Key: "C11.entry0", Min: 500}, {Key: "C11.target", Min: 60}},
 	})
+}
+
+// posArg spells a journal position; one in seven with leading zeros (the journal numbers its entries in decimal:
+// HEAD@{010} is the tenth, HEAD@{08} the eighth entry).
+func (k *Walker) posArg(pos int) string {
+	if k.chance(15) {
+		k.W.C.Class("arg:reset:zero-padded-position")
+		return fmt.Sprintf("HEAD@{%0*d}", len(fmt.Sprint(pos))+1+k.R.IntN(2), pos)
+	}
+	return fmt.Sprintf("HEAD@{%d}", pos)
 }
